@@ -427,13 +427,14 @@ Definition palette_lut (bits first : Z) (data : list Z) : res (list Z * list Z) 
   if palette_ok bits first data then Ok (lut_descriptor bits first data, palette_store bits data)
   else Err "ValueError".
 
-(* LUT.__init__ (also VOILUT / ModalityLUT): first mapped value < 2^16, at most
-   2^16 entries for either width, and NO pad byte (the code as it is) *)
+(* LUT.__init__ (also VOILUT / ModalityLUT / PresentationLUT): first mapped
+   value < 2^16, at most 2^16 entries for either width; stored little endian
+   and padded to even length like the palette tables (since fix 90091a0, D93) *)
 Definition plain_ok (bits first : Z) (data : list Z) : bool :=
   ((bits =? 8) || (bits =? 16)) && (0 <=? first) && (first <? 65536) &&
   (1 <=? zlen data) && (zlen data <=? 65536).
 Definition plain_lut (bits first : Z) (data : list Z) : res (list Z * list Z) :=
-  if plain_ok bits first data then Ok (lut_descriptor bits first data, lut_bytes bits data)
+  if plain_ok bits first data then Ok (lut_descriptor bits first data, palette_store bits data)
   else Err "ValueError".
 
 (* the [lut_data] property *)
